@@ -223,6 +223,9 @@ class Interp(ExprEnc):
         self.events = events         # optional list: (kind, name, idx or None, guard, node) for dataflow checks
         self.cur_node = None
         self.depth = 0
+        self.node_stack = []
+        self.node_inst = {}
+        self.entry_names = {}
 
     # ---- helpers
     def fresh(self, sort, tag='t'):
@@ -265,9 +268,41 @@ class Interp(ExprEnc):
             return s.as_signed_long()
         raise NotEncoded(f'non-constant {what}: {s}')
 
-    def event(self, kind, name, idx, guard):
-        if self.events is not None:
-            self.events.append((kind, name, idx, guard, self.cur_node, self.depth))
+    def event(self, kind, obj, idx, guard):
+        """read/write event on a storage object, attributed to the stack of entry-routine nodes being executed"""
+        if self.events is None or isinstance(obj, str):
+            return
+        root = obj
+        while True:
+            if isinstance(root, View):
+                root = root.base
+            elif isinstance(root, ElemCell):
+                root = root.arr
+            else:
+                break
+        name = self.entry_names.get(id(root))
+        if name is None:
+            return
+        if isinstance(obj, ElemCell):
+            idx = obj.idx
+        if isinstance(obj, View) and idx is not None:
+            c = Arr._concrete(obj, idx)
+            idx = obj.mapping.get(c) if c is not None else None
+            if idx is not None:
+                idx = tuple(self.sem.int_lit(x) if isinstance(x, int) else x for x in idx)
+        self.events.append((kind, name, idx, guard, tuple(self.node_stack)))
+
+    def register_entry_names(self, fr):
+        self.entry_names = {}
+
+        def reg(name, obj):
+            if isinstance(obj, DT):
+                for k, c in obj.comps.items():
+                    reg(f'{name}%{k}', c)
+            else:
+                self.entry_names[id(obj)] = name
+        for n, o in fr.vars.items():
+            reg(n, o)
 
     # ---- name resolution
     def find(self, name, frame=None):
@@ -346,14 +381,14 @@ class Interp(ExprEnc):
         if isinstance(obj, (Cell, ElemCell)):
             if dims:
                 raise NotEncoded(f'subscripted scalar {e.name}')
-            self.event('r', e.name.lower(), None, pc)
+            self.event('r', obj, None, pc)
             return obj.get(self, pc)
         if isinstance(obj, (Arr, View)):
             if dims and not any(isinstance(d, sym.RangeIndex) for d in dims):
                 idx = tuple(self.enc(d) for d in dims)
                 if any(not self.sem.is_int(i) for i in idx):
                     raise NotEncoded('non-integer subscript')
-                self.event('r', e.name.lower(), idx, pc)
+                self.event('r', obj, idx, pc)
                 return obj.get(idx, self, pc)
             if self.elem is not None:
                 combos = self.section(obj, dims)
@@ -362,7 +397,7 @@ class Interp(ExprEnc):
                     self.trap_if(pc, f'non-conforming array expression {e}')
                     return self.fresh(obj.sort, 'nonconf')
                 idx = tuple(self.sem.int_lit(i) if isinstance(i, int) else i for i in combos[pos])
-                self.event('r', e.name.lower(), idx, pc)
+                self.event('r', obj, idx, pc)
                 return obj.get(idx, self, pc)
             raise NotEncoded(f'array-valued reference {e} in scalar context')
         raise NotEncoded(f'cannot read {e.name} ({type(obj).__name__})')
@@ -663,6 +698,7 @@ class Interp(ExprEnc):
         self.declare(args, fr, is_input=True)
         self.collect_stmtfuncs(routine, fr)
         self.declare(routine.variables, fr, is_input=False)
+        self.register_entry_names(fr)
         self.exec_body(routine.body.body, fr)
         return fr
 
@@ -859,14 +895,22 @@ class Interp(ExprEnc):
         self.pc = pc
         self.sem.guard = pc
         prev_node = self.cur_node
+        pushed = False
         if self.depth == 0:
             self.cur_node = n
+            if self.events is not None:
+                k = self.node_inst.get(id(n), 0)
+                self.node_inst[id(n)] = k + 1
+                self.node_stack.append((n, k, pc))
+                pushed = True
         try:
             return self.exec_node(n, fr, pc)
         finally:
             self.pc = outer_pc
             self.sem.guard = outer_pc
             self.cur_node = prev_node
+            if pushed:
+                self.node_stack.pop()
 
     def exec_node(self, n, fr, pc):  # pylint: disable=too-many-branches,too-many-statements
         if isinstance(n, (ir.Comment, ir.CommentBlock, ir.Pragma, ir.VariableDeclaration, ir.ProcedureDeclaration,
@@ -1027,14 +1071,14 @@ class Interp(ExprEnc):
         dims = getattr(lhs, 'dimensions', None)
         if isinstance(obj, (Cell, ElemCell)):
             val = self.enc(rhs)
-            self.event('w', lhs.name.lower(), None, pc)
+            self.event('w', obj, None, pc)
             obj.set(val, self, pc)
             return
         if isinstance(obj, (Arr, View)):
             if dims and not any(isinstance(d, sym.RangeIndex) for d in dims):
                 idx = tuple(self.enc(d) for d in dims)
                 val = self.enc(rhs)
-                self.event('w', lhs.name.lower(), idx, pc)
+                self.event('w', obj, idx, pc)
                 obj.set(idx, val, self, pc)
                 return
             combos = self.section(obj, dims)
@@ -1052,7 +1096,7 @@ class Interp(ExprEnc):
                 self.trap_if(pc, f'non-conforming assignment to {lhs}')
             for c, v in zip(combos, vals):
                 idx = tuple(self.sem.int_lit(i) if isinstance(i, int) else i for i in c)
-                self.event('w', lhs.name.lower(), idx, pc)
+                self.event('w', obj, idx, pc)
                 obj.set(idx, v, self, pc)
             return
         if isinstance(obj, DT):
@@ -1200,7 +1244,7 @@ class Interp(ExprEnc):
                 for p, (c, v) in enumerate(zip(combos, vals)):
                     idx = tuple(self.sem.int_lit(i) if isinstance(i, int) else i for i in c)
                     g = z3.And(pc, eff[p])
-                    self.event('w', st.lhs.name.lower(), idx, g)
+                    self.event('w', obj, idx, g)
                     obj.set(idx, v, self, g)
             if mask is not None:
                 pending = [z3.And(pending[p], z3.Not(mask[p])) for p in range(k)]
@@ -1226,9 +1270,17 @@ class Interp(ExprEnc):
                     g = fr.live(pc)
                     if z3.is_false(g):
                         break
+                    self.event('w', var, None, g)
                     var.set(self.sem.int_lit(s0 + k * st0), self, g)
                     self.pc = pc
-                    self.exec_body(n.body, fr)
+                    mark = self.events is not None and self.depth == 0
+                    if mark:
+                        self.node_stack.append((n, ('iter', k), pc))
+                    try:
+                        self.exec_body(n.body, fr)
+                    finally:
+                        if mark:
+                            self.node_stack.pop()
             finally:
                 fr.loops.pop()
             # value after normal termination (not after EXIT)
@@ -1296,8 +1348,6 @@ class Interp(ExprEnc):
             callee = self.find_routine(name) or callee
         if callee is None or getattr(callee, 'body', None) is None:
             raise NotEncoded(f'call to unknown routine {name}')
-        if self.events is not None and self.depth == 0:
-            self.event('call', name, None, pc)
         self.call_routine(callee, n.arguments, n.kwarguments)
 
 
